@@ -42,6 +42,16 @@ pub struct QResp {
     pub code: u32,
 }
 
+/// A second response type, so that the query response table has something to tell apart.
+#[cosmwasm_schema::cw_serde]
+pub struct QRespB {
+    pub h: String,
+    pub code: u32,
+    pub extra: bool,
+}
+
+pub type QResultB<E> = Result<QRespB, E>;
+
 #[cosmwasm_schema::cw_serde]
 pub struct Nested {
     pub a: u32,
@@ -131,6 +141,29 @@ pub mod rec {
             Ok(QResp { h: name.to_string(), code })
         } else {
             Err(HandlerErr::Boom(code).into())
+        }
+    }
+
+    pub fn qresp_b<E: From<HandlerErr>>(name: &str, code: u32, ok: bool) -> Result<QRespB, E> {
+        if ok {
+            Ok(QRespB { h: name.to_string(), code, extra: true })
+        } else {
+            Err(HandlerErr::Boom(code).into())
+        }
+    }
+
+    /// C16 observation: the query response table of one message type (or of the contract-level one).
+    pub fn schemas(prog: &str, part: &str, table: Result<std::collections::BTreeMap<String, schemars::schema::RootSchema>, String>, anyof: i64) {
+        let known = [("QResp", cosmwasm_schema::schema_for!(QResp)), ("QRespB", cosmwasm_schema::schema_for!(QRespB))];
+        match table {
+            Ok(t) => {
+                let rows: Vec<Value> = t.iter().map(|(k, v)| {
+                    let ty = known.iter().find(|(_, s)| s == v).map(|(n, _)| *n).unwrap_or("other");
+                    json!({"name": k, "ty": ty, "title": v.schema.metadata.as_ref().and_then(|m| m.title.clone()).unwrap_or_default()})
+                }).collect();
+                rt::emit(json!({"ev":"Schemas","prog":prog,"part":part,"verdict":"ok","rows":rows,"anyof":anyof}));
+            }
+            Err(e) => rt::emit(json!({"ev":"Schemas","prog":prog,"part":part,"verdict":"err","rows":[],"anyof":anyof,"err":e})),
         }
     }
 
@@ -229,6 +262,7 @@ pub struct ProgVt {
     /// raw bytes into the generated `cw_multi_test::Contract` impl
     pub call_mt: fn(&str, &mut Deps, Env, MessageInfo, &[u8]) -> CallOut,
     pub encode_events: fn(),
+    pub schema_events: Option<fn()>,
     pub parts: &'static [&'static str],
     /// remote helpers (executor / querier / instantiate builder / admin): emits RemoteMsg events and
     /// delivers what the helpers built; the argument is the first free sequence number
@@ -284,6 +318,11 @@ pub fn run_program(vt: &ProgVt, prog: &Value) {
     }
     if let Err(m) = rt::catch(|| (vt.encode_events)()) {
         rt::emit(json!({"ev":"Panic","prog":id,"where":"encode","msg":m}));
+    }
+    if let Some(f) = vt.schema_events {
+        if let Err(m) = rt::catch(f) {
+            rt::emit(json!({"ev":"Panic","prog":id,"where":"schemas","msg":m}));
+        }
     }
     let candidates: Vec<String> = prog["candidates"].as_array().map(|a| a.iter().filter_map(|v| v.as_str().map(String::from)).collect()).unwrap_or_default();
     let stims = prog["stim"].as_array().cloned().unwrap_or_default();
